@@ -3,6 +3,12 @@ claimed = {
  "C01": ("proof", "Theorems (Coq, unbounded): TP1 for transform, the rebase diamond for lists, the replica invariant over every history of commits / interleaved sync requests / abandoned syncs / lost replies with any batching function, and convergence to the replay of the server chain. Tied to /repo by a correspondence check that runs model and code on the same generated histories (every request, every replica's tasks after every action, final chain) plus a direct convergence oracle on the implementation.",
          "Coq kernel + vm_compute; std++; no axioms (Print Assumptions: closed). Model hand-written; tie = differential correspondence (generator quality bounds it). serde/chrono/uuid text layers, tokio and rustc trusted. Histories are restricted to batches valid when committed (docs/storage.md).",
          "Coq proof (induction over histories, OT diamond) + model/code correspondence on generated histories", "7 C01"),
+ "C02": ("proof", "Theorems (Coq, unbounded): the replica invariant and convergence for every interleaving of any number of syncs at single-request granularity; no_out_of_sync (against the abstract chain server no sync ever ends out-of-sync or with a protocol error); what any (re)try pushes is a prefix of the list as rebased so far, and that list only loses operations (rebase_only_drops), so an operation that lost a conflict is never sent later. Tied to /repo by replaying seeded schedules on real Replica::sync futures behind a gated harness Server and in the model, comparing every request, result and the final chain.",
+         "As C01. The real servers are tied to the abstract chain server by C08/C09. Termination of racing syncs (liveness) is exercised, not proved.",
+         "Coq proof (invariants over all schedules) + deterministic-scheduler correspondence", "7 C02"),
+ "C04": ("proof", "Theorems (Coq, unbounded): a fault of any kind at any request leaves the stored replica unchanged; nothing is visible before the final commit; the replica invariant holds after any number of faults; self_cancel (a replica pulling its own accepted batch consumes exactly it and applies nothing); after faults no sync gets stuck and replicas converge to the chain replay. Tied to /repo by injecting the three fault kinds at generated points of real syncs and comparing stored state and the whole retry with the model.",
+         "As C01. Storage calls inside the sync act on the transaction's private copy (in-memory storage here); SQLite's rollback on drop is covered by C06.",
+         "Coq proof (fault events in the history semantics) + fault-injection correspondence", "7 C04"),
 }
 checks=[]
 for pid,(cat,text,note,tech,ref) in claimed.items():
